@@ -177,20 +177,34 @@ fn has_unsupported(items: &[Sx]) -> Option<String> {
 pub fn vrun_program(src: &str, only: Option<(&str, &[Vec<VV>])>, nvec: usize, rng: &mut Rng, out: &mut Out, hist_all: &mut Hist) {
     // the distribution of this stream is reported under its own prefix
     let mut local = Hist::default();
-    vrun_program_inner(src, only, nvec, rng, out, &mut local);
+    vrun_program_inner(src, only, nvec, rng, out, &mut local, false);
     for (k, n) in &local.0 {
         let key = if k.starts_with("v:") { k.clone() } else { format!("v:{}", k) };
         *hist_all.0.entry(key).or_insert(0) += *n;
     }
 }
 
-fn vrun_program_inner(src: &str, only: Option<(&str, &[Vec<VV>])>, nvec: usize, rng: &mut Rng, out: &mut Out, hist: &mut Hist) {
+/// `C01.vex`: the same run, reported at expression level for the Lean vector model — request
+/// `C01.vex \t source \t function \t argument vectors \t vars=<id>:<emitted name>:<type>,… \t <IR of the returned expression>`,
+/// observation `vast <exporter's tree of the returned expression> ;; run <IR value per vector>`; the function must be
+/// `T f(in params) { return E; }`
+pub fn vex_program(src: &str, only: Option<(&str, &[Vec<VV>])>, nvec: usize, rng: &mut Rng, out: &mut Out, hist_all: &mut Hist) {
+    let mut local = Hist::default();
+    vrun_program_inner(src, only, nvec, rng, out, &mut local, true);
+    for (k, n) in &local.0 {
+        let key = if k.starts_with("v:") { format!("x:{}", &k[2..]) } else { format!("x:{}", k) };
+        *hist_all.0.entry(key).or_insert(0) += *n;
+    }
+}
+
+fn vrun_program_inner(src: &str, only: Option<(&str, &[Vec<VV>])>, nvec: usize, rng: &mut Rng, out: &mut Out, hist: &mut Hist, vex: bool) {
+    let opname = if vex { "C01.vex" } else { "C01.vfn" };
     let src1 = one_line(src);
     let p = match vprepare(src, hist) {
         Ok(p) => p,
         Err(why) => {
             hist.add("v:skip:front-end");
-            out.case(&format!("C01.vfn\t{}\t-\t\t-\t-", src1), "skip", &format!("SKIP:{}", why));
+            out.case(&format!("{}\t{}\t-\t\t-\t-", opname, src1), "skip", &format!("SKIP:{}", why));
             return;
         }
     };
@@ -231,7 +245,16 @@ fn vrun_program_inner(src: &str, only: Option<(&str, &[Vec<VV>])>, nvec: usize, 
             },
             _ => vec![vec![]],
         };
-        let req = format!("C01.vfn\t{}\t{}\t{}\t-\t{}", src1, src_name, show_vvectors(&vectors), prog_text);
+        let mut req = format!("C01.vfn\t{}\t{}\t{}\t-\t{}", src1, src_name, show_vvectors(&vectors), prog_text);
+        // expression level: the IR function is `(fn id ret (params …) (b (ret E)))`
+        let ret_expr: Option<&Sx> = p
+            .prog
+            .iter()
+            .find(|x| x.head() == "fn" && x.args()[0].atom() == fid.to_string())
+            .and_then(|f| match f.args()[3].args() {
+                [r] if r.head() == "ret" && r.args().len() == 1 => Some(&r.args()[0]),
+                _ => None,
+            });
         // the exporter's tree of this function for both flavours (must be the same tree)
         let tree = |m: &Result<Result<rssl_ast::Module, _>, String>| -> Result<Option<Sx>, String> {
             match m {
@@ -258,7 +281,38 @@ fn vrun_program_inner(src: &str, only: Option<(&str, &[Vec<VV>])>, nvec: usize, 
                 if a1 != a2 {
                     fails.push(format!("dx and vk syntax trees of {} differ", emitted));
                 }
-                if unsupported { format!("unsupported {}", ir_unsupported.clone().unwrap_or_default()) } else { format!("ast {} ;; run {}", a1.show(), run_text) }
+                if unsupported {
+                    format!("unsupported {}", ir_unsupported.clone().unwrap_or_default())
+                } else if vex {
+                    // names of the parameters as emitted, the returned expression's tree, return values only
+                    let ir_params = p.prog.iter().find(|x| x.head() == "fn" && x.args()[0].atom() == fid.to_string()).map(|f| f.args()[2].args().to_vec()).unwrap_or_default();
+                    let ast_params = a1.args()[2].args();
+                    let body = a1.args()[3].args();
+                    match (ret_expr, body) {
+                        (Some(e), [r]) if r.head() == "ret" && r.args().len() == 1 && ir_params.len() == ast_params.len() => {
+                            let ctx: Vec<String> = ir_params
+                                .iter()
+                                .zip(ast_params)
+                                .map(|(ip, ap)| format!("{}:{}:{}", ip.args()[0].atom(), ap.args()[0].atom(), ip.args()[2].show()))
+                                .collect();
+                            req = format!("C01.vex\t{}\t{}\t{}\tvars={}\t{}", src1, src_name, show_vvectors(&vectors), ctx.join(","), e.show());
+                            let rets: Vec<String> = ir_results
+                                .iter()
+                                .map(|o| match o {
+                                    Some(o) => o.ret.as_ref().map(|v| v.show()).unwrap_or_else(|| "v".into()),
+                                    None => "none".into(),
+                                })
+                                .collect();
+                            format!("vast {} ;; run {}", r.args()[0].show(), rets.join(" | "))
+                        }
+                        _ => {
+                            req = format!("C01.vex\t{}\t{}\t{}\t-\t-", src1, src_name, show_vvectors(&vectors));
+                            "unsupported not-an-expression-function".to_string()
+                        }
+                    }
+                } else {
+                    format!("ast {} ;; run {}", a1.show(), run_text)
+                }
             }
             (Ok(None), _) | (_, Ok(None)) => {
                 fails.push(format!("function {} missing from the exported module", emitted));
@@ -334,6 +388,13 @@ fn vrun_program_inner(src: &str, only: Option<(&str, &[Vec<VV>])>, nvec: usize, 
 /// the k-th program of the vector stream for a seed
 pub fn vprogram(seed: u64, k: u64) -> String {
     let mut rng = Rng::new(seed.wrapping_mul(0x2545_F491_4F6C_DD1D) ^ k.wrapping_mul(0x9E37_79B9_7F4A_7C15) ^ 0x76656374);
-    let opts = super::vgen::VGenOpts { max_depth: 1 + (k % 3) as u32, matrices: k % 4 == 3, structs: k % 2 == 1, enums: k % 5 >= 3 };
+    let opts = super::vgen::VGenOpts { max_depth: 1 + (k % 3) as u32, matrices: k % 4 == 3, structs: k % 2 == 1, enums: k % 5 >= 3, pure: false };
     super::vgen::VGen::new(&mut rng, opts).program()
+}
+
+/// the k-th expression function of the vector-model stream (`C01.vex`)
+pub fn vex_source(seed: u64, k: u64) -> String {
+    let mut rng = Rng::new(seed.wrapping_mul(0x2545_F491_4F6C_DD1D) ^ k.wrapping_mul(0x9E37_79B9_7F4A_7C15) ^ 0x76657821);
+    let opts = super::vgen::VGenOpts { max_depth: 1 + (k % 4) as u32, matrices: false, structs: false, enums: false, pure: true };
+    super::vgen::VGen::new(&mut rng, opts).expression_function()
 }
